@@ -188,6 +188,17 @@ CHECKS = {
              "object: structure, order, bit-identical floats, exact strings, ValueError naming the first offending row, "
              "warnings for convention violations; ragged series and pattern files round-trip.",
         ref="4/C20"),
+    "C04": dict(
+        technique="TLA+ definitions of the scores on integer lattices with exact rational results (Metrics.tla, Key.tla, "
+                  "Multipitch.tla); TLC enumerates each domain; rows replayed into the code",
+        text="Metrics.tla defines hit-based P/R/F through maximum matchings (onset, beat F, boundary detection with trim, note "
+             "criteria with onset-only/offset-only variants), boundary deviations, tempo P-score and hit flags, alignment "
+             "median/mean error, percentage correct and both PCS variants, and the five melody measures with continuous voicing; "
+             "MC_Key covers the whole key domain. MC_C04 enumerates six lattice domains with all parameter combinations "
+             "(documented defaults also left unspecified in the call), checks ranges/nestings on the definitions and exports "
+             "rationals that are compared to 1e-9 with the public functions; ties on a tolerance are flagged by the spec and "
+             "skipped, as the property stipulates.",
+        ref="4/C04"),
 }
 
 PENDING = "check not built yet (build in progress; see DESIGN.md section 10)"
